@@ -1113,6 +1113,18 @@ func (in *Interp) instrs(st *State, b, pred *ssa.BasicBlock, idx int, k kont) {
 					break
 				}
 			}
+			// a symbolic map (field of a symbolic receiver): an entry written earlier on this path under a
+			// definitely equal key is found again
+			if ms, isSym := x.(Sym); isSym {
+				if hit, ok := st.symMem["map:"+ms.Name+"["+key.String()+"]"]; ok {
+					if ins.CommaOk {
+						in.set(st, ins, Tuple{[]AV{hit, mkBool(true)}})
+					} else {
+						in.set(st, ins, hit)
+					}
+					break
+				}
+			}
 			v := AV(Expr{Op: "lookup", Args: []AV{x, key}})
 			if ins.CommaOk {
 				in.set(st, ins, Tuple{[]AV{v, Expr{Op: "lookup.ok", Args: []AV{x, key}}}})
@@ -1139,6 +1151,9 @@ func (in *Interp) instrs(st *State, b, pred *ssa.BasicBlock, idx int, k kont) {
 					mo.Fields[fmt.Sprint(len(mo.Elems))] = val
 					mo.Elems = append(mo.Elems, key)
 				}
+			}
+			if ms, isSym := in.val(st, ins.Map).(Sym); isSym {
+				st.symMem["map:"+ms.Name+"["+in.val(st, ins.Key).String()+"]"] = in.val(st, ins.Value)
 			}
 			st.Events = append(st.Events, Event{Kind: "mapupdate", Target: in.val(st, ins.Map).String(), Args: []AV{in.val(st, ins.Map), in.val(st, ins.Key), in.val(st, ins.Value)}, Pos: ins.Pos(), Stack: st.stackString()})
 		case *ssa.BinOp:
